@@ -421,6 +421,12 @@ func oracleC03(p *sim.Plan, out *sim.Outcome) []sim.Violation {
 				} else if inPrefix {
 					for len(expect) > 0 {
 						e := expect[0]
+						if e.pid == pk.PID && e.ackSent && (e.qos != 2 || e.state == "pub") {
+							// an entry whose final acknowledgement may have been lost, under an identifier that has been
+							// re-used since: a PUBREL cannot be its retransmission, it belongs to a later entry
+							expect = expect[1:]
+							continue
+						}
 						if e.pid == pk.PID {
 							if e.state == "pub" && !e.ackSent {
 								vs = append(vs, viol("C03", "redeliver", "pubrel-instead-of-publish", "resume on connection %d: PUBREL %d although the client never sent PUBREC for %q", r.Conn, pk.PID, e.payload))
